@@ -47,8 +47,8 @@ def def_block(text, docgen, ind="  "):
         return lines + [ind + text + (";" if text.startswith("type") else "")]
     kind, name, body = m.groups()
     lines.append(f"{ind}{kind} {name} {{")
-    for mem in split_members(body):
-        if docgen:
+    for k, mem in enumerate(split_members(body)):
+        if docgen and k < 8:
             lines += [ind + "  /// " + d if d else ind + "  ///" for d in docgen("member")]
         lines.append(f"{ind}  {mem},")
     lines.append(ind + "}")
